@@ -1,3 +1,22 @@
+/-
+C17 driver.  One request per line:
+
+  c17 doc <profile> <nform> (<hex text> <digest>){nform} <nlook> <hex name>{nlook} <TREE>
+
+* `<nform>` pairs: every element text of the document `formula::parse` accepts, with the
+  digest (16 hex digits, FNV-1a of the AST's `Debug` text) — the abstract `formulaOk` and the
+  value printed for formulas (`#digest`); formula syntax itself is property C05.
+* `<TREE>` prefix encoding of the root element as roxmltree reports it:
+  `E <hex tag> <nattrs> (<hex name> <hex value>)* <nchildren> TREE*` | `T <hex text>` | `C <hex comment>`
+  (hex of the UTF-8 bytes, `-` for the empty string).
+
+Answer: `panic` or
+  `ok rd{..} nodes[KIND{k=v;..}|..] inval[@inv>@target,..] look["name:KIND|-|?,..]`
+nodes in `visit_nodes` order (ascending id) with every public getter (references as `@hex name`,
+value-store contents behind value ids, floats as bit patterns); `inval` = `store_invalidator`
+calls in call order; `look` = `id_by_name` + `node_opt` of the requested names.  The field
+list per kind is `dNode` below and `D::node` in harness/src/bin/c17.rs.
+-/
 import CamVerif.Model.XmlParse
 import Driver.Util
 namespace Driver.C17
